@@ -210,6 +210,13 @@ func cmdCheck(mode string, args []string) int {
 	t0 := time.Now()
 	w, err := loadWorld(*repo, defaultPatterns(), filepath.Join(verifDir, "specs"))
 	if err != nil {
+		// loading is deterministic for a given tree; one retry only guards against a
+		// transient failure of the go command on a cold machine
+		fmt.Fprintln(os.Stderr, "load:", err, "(retrying once)")
+		time.Sleep(2 * time.Second)
+		w, err = loadWorld(*repo, defaultPatterns(), filepath.Join(verifDir, "specs"))
+	}
+	if err != nil {
 		// the tree does not load (or a contract file does not parse): nothing is proved
 		fmt.Fprintln(os.Stderr, "load:", err)
 		rp := writeReplay(*prop, "load", "load/translate failure: "+err.Error())
